@@ -361,6 +361,8 @@ def gen_table (rng, n, maxn):
       if any(c == c2 and pr == p2 for c2, p2 in seen): continue
       seen.append((c, pr))
       entries.append(dict(match=m, priority=pr))
+    # (entry i outputs to marker port 1+i; the ingress ports are 39 and 40)
+    del entries[36:]
     probes = []
     for raw, desc in base:
       for in_port in IN_PORTS:
